@@ -343,8 +343,17 @@ pub fn as_rust_type(node_type: &str, doc: &RustDocument) -> RustFieldType {
 }
 
 pub fn as_field_name(xml_name: &str) -> String {
-    let field_name = to_snake_case(xml_name);
+    let field_name = identifier_characters_only(&to_snake_case(xml_name));
     not_starting_with_a_digit(rename_keywords(&field_name).to_string())
+}
+
+/// Characters such as `²`, `①` or `¼` count as alphanumeric (and survive the case conversion) but
+/// may not stand in a Rust identifier: they become an underscore. Letters of any script and the
+/// digits 0-9 are kept.
+pub fn identifier_characters_only(name: &str) -> String {
+    name.chars()
+        .map(|c| if c.is_alphabetic() || c.is_ascii_digit() || c == '_' { c } else { '_' })
+        .collect()
 }
 
 /// an identifier cannot start with a digit (an XML name should not either, but may)
@@ -361,7 +370,7 @@ pub fn not_starting_with_a_digit(identifier: String) -> String {
 /// unqualified inside the namespace modules (`Option<..>`, `Vec<..>`, `String`, `Rc<..>`,
 /// `..Default::default()`, the `CheckRestrictions` trait) would shadow it there.
 pub fn as_type_name(xml_name: &str) -> String {
-    let type_name = to_pascal_case(xml_name);
+    let type_name = identifier_characters_only(&to_pascal_case(xml_name));
     match type_name.as_str() {
         "Self" | "Option" | "Vec" | "String" | "Rc" | "Default" | "CheckRestrictions" => format!("{type_name}_"),
         // a name made of separators only, such as `_`
